@@ -65,6 +65,7 @@ int main(int argc, char **argv)
   if (argc > 3 && strchr(argv[3], ':')) { ia = atoi(argv[3]); na = split(strchr(argv[3], ':') + 1); }
   if (argc > 4 && strchr(argv[4], ':')) { ib = atoi(argv[4]); nb = split(strchr(argv[4], ':') + 1); }
   int bad(one("MsgA", "UA", a, ia, na) + one("MsgB", "UB", b, ib, nb));
+  if (argc > 5) { std::vector<unsigned> c(split(argv[5])), nc; bad += one("MsgC", "UC", c, -1, nc); }      // third definition of a chained-key schema
   printf("C14 round trip %s\n", bad ? "VIOLATED" : "ok");
   return bad ? 1 : 0;
 }
